@@ -71,7 +71,7 @@ func (w *world) judge() {
 	}
 	var incs []*inc
 	byCtx := map[int]*inc{}
-	shutdownRet := -1
+	shutdownRet, runRet := -1, -1
 	for i, ev := range log {
 		switch ev.Kind {
 		case "start":
@@ -89,6 +89,10 @@ func (w *world) judge() {
 		case "shutdown.ret":
 			if shutdownRet < 0 {
 				shutdownRet = i
+			}
+		case "run.ret":
+			if runRet < 0 {
+				runRet = i
 			}
 		}
 	}
@@ -115,6 +119,13 @@ func (w *world) judge() {
 			}
 			if hi.ret < 0 || hi.ret > lo.cancel {
 				vrt.Fail("order|lower-cancelled-before-higher-returned", "worker %s (order %d) was cancelled while worker %s (order %d) had not returned yet", lo.name, lo.order, hi.name, hi.order)
+			}
+		}
+	}
+	if runRet >= 0 {
+		for _, x := range incs {
+			if x.start < runRet && (x.ret < 0 || x.ret > runRet) {
+				vrt.Fail("wait|run-returned-with-running-worker", "Run returned while started worker %s (order %d) had not returned", x.name, x.order)
 			}
 		}
 	}
@@ -233,6 +244,26 @@ func scenarios() []*sched.Scenario {
 		vrt.Quiesce()
 		w.shutdownAndWait()
 		r.Join()
+	})
+	add("run/lowest-order-exits-early", false, func(w *world) {
+		_ = w.add(wspec{name: "a", order: 2, lateYields: 1})
+		_ = w.add(wspec{name: "b", order: 1, early: true})
+		_ = w.add(wspec{name: "c", order: 1, early: true})
+		r := vrt.Spawn(func() {
+			w.d.Run()
+			vrt.Observe("run.ret")
+		})
+		vrt.Quiesce() // the whole lowest-order group has returned on its own; a is still running, so Run must not return
+		w.shutdownAndWait()
+		r.Join()
+	})
+	add("same-order-worker-added-while-running", false, func(w *world) {
+		_ = w.add(wspec{name: "a", order: 1, lateYields: 2})
+		_ = w.add(wspec{name: "z", order: 0})
+		w.d.Start()
+		vrt.Settle()
+		_ = w.add(wspec{name: "b", order: 1})
+		w.shutdownAndWait()
 	})
 	add("equal-order-cancelled-together", false, func(w *world) {
 		// x returns only after y has seen its cancellation: a daemon that waits for x before cancelling y never finishes
